@@ -394,7 +394,11 @@ class RSocketBase(RSocket, RSocketInternal):
             next_fragment = next_frame_source.get_next_fragment(transport.requires_length_header())
 
             if next_fragment.flags_follows:
-                self._send_queue.put_nowait(self._send_queue.get_nowait())  # cycle to next frame source in queue
+                # cycle to next frame source in queue, but stay ahead of later frames of the same stream
+                self._send_queue.get_nowait()
+                self._send_queue.put_nowait_before(
+                    next_frame_source,
+                    lambda queued_frame: queued_frame.stream_id == next_frame_source.stream_id)
             else:
                 next_frame_source.get_next_fragment(
                     transport.requires_length_header())  # workaround to clean-up generator.
